@@ -2,7 +2,7 @@
 # (not a registered check itself; `tools/trxcon_selftest.py` runs it standalone).
 #
 # Code under test: src/host/trxcon/src/trx_if.c (compiled UNCHANGED from vf.REPO against the shim
-# headers harness/c/shim_trxcon; harness harness/c/trxcon/*.c).  Lean: Model/TrxconIf.lean,
+# headers harness/c/shim_trxif; harness harness/c/trxcon/*.c).  Lean: Model/TrxconIf.lean,
 # Lemmas/TrxconIf.lean, Props/Trxcon.lean (namespace OsmoVerif.Props.Trxcon), Driver/TrxconIf.lean
 # (verbs `tc.*`), Gen/Trxcon.lean (gen/trxcon.py).
 #
@@ -25,7 +25,7 @@ import os, re
 from lib import vf, cbuild
 
 HDIR = os.path.join(vf.ROOT, "harness/c/trxcon")
-SHIM = os.path.join(vf.ROOT, "harness/c/shim_trxcon")
+SHIM = os.path.join(vf.ROOT, "harness/c/shim_trxif")
 TRX_IF_C = os.path.join(vf.REPO, "src/host/trxcon/src/trx_if.c")
 TRXCON_INC = os.path.join(vf.REPO, "src/host/trxcon/include")
 ASAN = ["-fsanitize=address,undefined", "-fno-sanitize-recover=all"]
@@ -482,7 +482,7 @@ ASSUMPTIONS = [
     "fix for F6 applied) with C integer widths and buffer capacities; tied to the tree by differential execution of the unchanged "
     "trx_if.c (clang ASan+UBSan, and MSan) on boundary-dense and malformed inputs; buffer sizes, errno values, chan_types[] and the "
     "FSM transition masks regenerated from the compiled translation unit on every run",
-    "trxcon environment replaced by harness/c/shim_trxcon + harness/c/trxcon/shim_impl.c: talloc -> calloc, logging -> formatting sink, "
+    "trxcon environment replaced by harness/c/shim_trxif + harness/c/trxcon/shim_impl.c: talloc -> calloc, logging -> formatting sink, "
     "osmo_fsm_inst_state_chg -> out_state_mask check + recorder, osmo_fsm_inst_term / timers -> recorder, sockets -> "
     "socketpair(AF_UNIX, SOCK_DGRAM); gsm_arfcn2freq10 from the in-tree libosmocore, gsm_freq102arfcn / GSM_TDMA_* / burst lengths / "
     "enum gsm_phys_chan_config transcribed from current libosmocore (the in-tree copy predates them)",
